@@ -141,6 +141,12 @@ func (c *Ctx) ruleA4(rule string, fn *ssa.Function, isWorker func(*ssa.Call) boo
 				}
 			}
 			c.Check(rule, key+"/done", !missing, g.Pos(), "Done() of %s must be reached on every path through the goroutine", fo.wg.Comment)
+			// Done only after the work: no path reaches Done without having run the worker
+			_, early := pathExists(lit, nil, isDone, func(i2 ssa.Instruction) bool { return i2 == ssa.Instruction(fo.worker) })
+			if _, isDefer := dones[0].(*ssa.Defer); isDefer {
+				early = false
+			}
+			c.Check(rule, key+"/done-after-work", !early, g.Pos(), "Done() can be reached before the worker call has run: the join would not wait for it")
 			// more than one Done on a path would release the barrier early
 			twice := false
 			for _, d := range dones {
